@@ -151,7 +151,7 @@ def runLock (P : Params) (o : Oracle) (s : State) (block : Nat) (t : TxIn) (pric
   if !coinExists s coin then reject 102 else
   withCom P o s t.gasCoin price fun com =>
     if t.gasCoin != coin && balanceOf s t.sender coin < value then reject 107 else
-    if balanceOf s t.sender t.gasCoin < (if t.gasCoin == coin then value + com.commission else com.commission) then reject 107 else
+    if balanceOf s t.sender t.gasCoin < t.addIfGas coin com.commission value then reject 107 else
     ready t com [.lock t.sender { height := due, addr := t.sender, candKey := none, candId := 0, coin := coin, value := value, moveTo := 0 }]
 
 /-- LockStake (37). -/
